@@ -114,6 +114,76 @@ def frac_util(acc, reserved):
     return best
 
 
+def rank_check(tag, node, ordered, prefix='c06'):
+    """Boost and cap of one allocation, in exact rationals.
+
+    node: {'reserved': [m, c, d] or None, 'rank', 'adj', 'maxutil'};
+    ordered: [(name, priority, demand, rank)] in the allocation's priority
+    order. Returns (boosted, plain) counts."""
+    reserved = node['reserved'] or [0, 0, 0]
+    acc = [0, 0, 0]
+    boosted = plain = 0
+    for name, prio, demand, rank in ordered:
+        before = list(acc)
+        acc = [a + d for a, d in zip(acc, demand)]
+        if prio == 0:
+            continue
+        util = frac_util(acc, reserved)
+        capped = None
+        if node['maxutil'] is not None:
+            cap = fractions.Fraction(node['maxutil']) - 1
+            if util is None:
+                capped = True
+            else:
+                margin = fractions.Fraction(1, 10 ** 9) * (1 + abs(cap))
+                if util > cap + margin:
+                    capped = True
+                elif util < cap - margin:
+                    capped = False
+        else:
+            capped = False
+        if capped is True and rank != UNPLACED:
+            raise Violation(
+                prefix + '.cap',
+                '%s in %s is beyond the cap %s (cumulative %s, reserved %s) '
+                'but has rank %s' % (name, tag, node['maxutil'], acc,
+                                     reserved, rank))
+        if capped is False and rank == UNPLACED:
+            raise Violation(
+                prefix + '.cap-early',
+                '%s in %s is within the cap %s (cumulative %s, reserved %s) '
+                'but is not scheduled' % (name, tag, node['maxutil'], acc,
+                                          reserved))
+        if rank == UNPLACED or capped is None:
+            continue
+        within_before = all(b < r for b, r in zip(before, reserved))
+        within_after = all(a <= r for a, r in zip(acc, reserved))
+        if within_before and within_after:
+            if rank != node['rank'] - node['adj']:
+                raise Violation(
+                    prefix + '.boost-missing',
+                    '%s in %s stays within the reservation %s (cumulative '
+                    '%s) but has rank %s, expected %s' %
+                    (name, tag, reserved, acc, rank,
+                     node['rank'] - node['adj']))
+            boosted += 1
+        elif not within_before:
+            if rank != node['rank']:
+                raise Violation(
+                    prefix + '.boost-extra',
+                    '%s in %s is beyond the reservation %s (cumulative '
+                    'before %s) but has rank %s, expected %s' %
+                    (name, tag, reserved, before, rank, node['rank']))
+            plain += 1
+        else:
+            if rank not in (node['rank'], node['rank'] - node['adj']):
+                raise Violation(
+                    prefix + '.rank-value',
+                    '%s in %s has rank %s, neither %s nor boosted' %
+                    (name, tag, rank, node['rank']))
+    return boosted, plain
+
+
 def execute_cell(case, stats):
     """Queue predicates on the queues of real cycles, plus: an instance with
     the unplaced rank is on no server after the cycle."""
@@ -223,6 +293,19 @@ def execute_master(case, stats):
                         'priority, queue has %s' %
                         (alloc, [(it[1], it[2]) for it in expect],
                          [(it[1], it[2]) for it in items]))
+                # rank, boost and cap from the allocation as DECLARED in
+                # ZooKeeper (as the master last loaded it)
+                node = sim.reference_allocation(alloc)
+                ranks = {name: rank for name, rank, _srv in entries}
+                boosted, _plain = rank_check(
+                    alloc, node,
+                    [(it[1], it[2], sim.decl_apps[it[1]]['demand'],
+                      ranks[it[1]]) for it in items],
+                    prefix='c06.master')
+                if boosted:
+                    seen['boosted'] = True
+                if any(ranks[it[1]] == UNPLACED for it in items):
+                    seen['capped'] = True
 
     sim = mastersim.MasterSim(case, observers=[observe], stats=stats)
     sim.run()
